@@ -740,6 +740,8 @@ class PybindWrapper:
 
         # Reset the serializing classes list
         self._serializing_classes = []
+        # Overload bookkeeping of the docstring extractor is per file, too.
+        self.xml_parser = XMLDocParser()
 
         submodules_init = []
 
